@@ -192,6 +192,24 @@ def check(rep, F, tier, replay=None):
             if not _must(e_[4], ev_):
                 rep.violation("EMIT-all", F.key(fid_), "%s walks %s but can finish an iteration without adding an entry to the collection it returns, while %s::get_plutus_witnesses numbers every entry of that container: after a skipped entry every later redeemer index points one position too far (e.g. a policy whose amounts cancel out is dropped from the mint but still counted)" % (F.key(fid_), sorted(roots_ & enum_roots), owner.rsplit("::", 1)[-1]), {})
     rep.floor("builder build loops over an index-numbered container", 3, n_em)
+    # EMIT-adapt: the iterator form of the same obligation
+    rep.rule("EMIT-adapt", "in every builder whose get_plutus_witnesses numbers the entries of a container by position, `build` / `build_unchecked` (and their closures) apply no element-dropping or re-ordering adaptor (Iterator::filter / filter_map / skip / take / step_by / rev / take_while / skip_while / flat_map, Vec::retain / dedup / sort*) on the way from that container to what they return: a withdrawal of 0 lovelace (the usual way to run a staking validator) filtered out of the body shifts every later (Reward, i) one position")
+    DROP_ = re.compile(r"(Iterator::(filter|filter_map|flat_map|flatten|take|skip|take_while|skip_while|step_by|rev|map_while|scan)$|Vec::<T, A>::(retain|retain_mut|dedup|dedup_by|dedup_by_key|truncate|reverse|swap_remove)$|slice::<impl \[T\]>::(sort|sort_by|sort_by_key|sort_unstable|sort_unstable_by|sort_unstable_by_key|reverse)$)")
+    n_ad = 0
+    for fid_, fn_ in F.fns.items():
+        base_ = fid_.split("::{closure")[0]
+        if "/tests/" in fn_["file"] or "src/builders/" not in fn_["file"] or base_.rsplit("::", 1)[-1] not in ("build", "build_unchecked"):
+            continue
+        owner = base_.rsplit("::", 1)[0]
+        if owner + "::get_plutus_witnesses" not in F.fns:
+            continue
+        if fid_ == base_:
+            n_ad += 1
+        rep.inst("EMIT-adapt")
+        for c in F.calls(fid_):
+            if DROP_.search(c.to or ""):
+                rep.violation("EMIT-adapt", "%s|%s" % (F.key(base_), (c.to or "").rsplit("::", 1)[-1]), "%s passes the entries it emits through `%s`, while %s::get_plutus_witnesses numbers every entry of the container by position: an entry dropped or moved on the way to the body leaves every later redeemer pointing at another item" % (F.key(base_), c.to, owner.rsplit("::", 1)[-1]), {"line": c.line})
+    rep.floor("builder build functions inspected for adaptors", 4, n_ad)
     return rep.finish(
         EXPLANATION,
         ["the body field of each purpose is built from the same container (BODY-origin rule of C18)", "enumerate() counts from 0 in iteration order (std)",
